@@ -93,7 +93,7 @@ def run(tier, replay=None):
     hc = []
     for i, c in enumerate(cases):
         hc.append({"id": i + 1, "mode": "observe", "text": respell(c["text"], i), "want": ["nodes", "errors", "lints"]})
-    tp, hevs = run_harness(rvh, hc, wd, "conform")
+    tp, hevs = run_harness_par(rvh, hc, wd, "conform")
     tr = [{"id": e["id"], "ev": e["ev"], "prop": "C04", "case": {"inj": "", "codes": [], "line": -1, "alt": -1, "reg": -1},
            "diags": diags_of(e) if e["ev"] == "obs" else []} for e in hevs]
     v2, ress2 = validate_chunks("Trace_Diag", tr, wd, "diag.chunk", chunk=5000, heap="8g")
